@@ -33,6 +33,7 @@ def run(ctx: Context) -> None:
     ctx.rule('R09.4', "the geometry inventory of every convention covers every variable its geometry code reads, and tests for presence dataset-wide; select_variables keeps requested + inventory + depth + time and drops the rest", floor=8)
     ctx.rule('R09.5', "grid clip masks carry copies of the coordinate variables; Arakawa masks are built for all four grid kinds", floor=4)
     ctx.rule('R09.6', "every connectivity table the topology can supply is carried over: unconditionally for face-node, under exactly its own validity test (and the presence of the edge table for tables involving edges) for the others, and written with the mesh variable", floor=8)
+    ctx.rule('R09.7', "the reopened result is read with the same dimension discovery (shared with C10 R10.5) and re-indexing never writes into the clip mask or the input tables", floor=6)
     ctx.assume("NOT decided: that the saved file reopens as the same convention (needs the file)")
     ctx.assume("xarray/netCDF apply encoding dtype and _FillValue on write")
 
@@ -179,6 +180,12 @@ def run(ctx: Context) -> None:
     ok = any("data_array.encoding.update({'dtype': data.dtype, '_FillValue': fill_value})" == norm_text(s) for s in mi.body)
     ctx.check('R09.3', ok, "the written variable is encoded with the integer dtype and that _FillValue", mi, mi.node)
 
+    from . import c10
+    from .common import purity_obligations, share_obligations
+    share_obligations(ctx, c10, {'R10.5'}, 'R09.7')
+    purity_obligations(ctx, 'R09.7', uc, ['connectivity', 'old_array', 'row_indexes', 'column_values'], "update_connectivity")
+    purity_obligations(ctx, 'R09.7', ac, ['clip_mask'], "UGrid.apply_clip_mask")
+
     # ------------------------------------------------------------------ R09.4
     from ..handles import inventory_obligations
     inventory_obligations(ctx, 'R09.4')
@@ -188,6 +195,22 @@ def run(ctx: Context) -> None:
                and isinstance(n.comparators[0], ast.Attribute) and n.comparators[0].attr in ('data_vars', 'coords')]
         ctx.check('R09.4', not bad, "presence of a geometry variable is tested dataset-wide (variables), not only among data variables", fi,
                   bad[0] if bad else fi.node, construct=f"{fi.short}: membership tests on partial namespaces: {[norm_text(b) for b in bad] or 'none'}")
+    for fi in p.implementations(base, 'get_all_geometry_names'):
+        coupled = []
+        for n in ast.walk(fi.node):
+            body = None
+            if isinstance(n, ast.Try):
+                body = n.body
+            elif isinstance(n, ast.With) and any('suppress' in norm_text(i.context_expr) for i in n.items):
+                body = n.body
+            if body is None:
+                continue
+            optional = [x for b in body for x in ast.walk(b) if isinstance(x, ast.Subscript) and isinstance(x.value, ast.Attribute) and x.value.attr == 'attrs'
+                        and isinstance(x.ctx, ast.Load)]
+            if len(optional) > 1:
+                coupled.append(n)
+        ctx.check('R09.4', not coupled, "each optional geometry variable is looked up on its own: a missing attribute of one does not hide another", fi,
+                  coupled[0] if coupled else fi.node, construct=f"{fi.short}: guarded blocks with several optional attribute lookups: {len(coupled)}")
     sv = ctx.func(f"{BASE}.select_variables")
     sflow = ctx.flow(sv)
     keep = [n for n in walk_no_nested(sv.node) if isinstance(n, ast.Assign) and norm_text(n.targets[0]) == 'keep_vars']
@@ -252,5 +275,8 @@ VARIANTS = [
     V('C09', 'cf-inventory-data-vars-only', _G, "            if bounds_name is not None and bounds_name in self.dataset.variables:", "            if bounds_name is not None and bounds_name in self.dataset.data_vars:", 'R09.4'),
     V('C09', 'select-variables-forgets-depth', _B, "            *self.get_all_geometry_names(),\n            *self.depth_coordinates,\n        ]", "            *self.get_all_geometry_names(),\n        ]", 'R09.4'),
     V('C09', 'ugrid-inventory-drops-face-node', _U, "            topology.face_node_connectivity.name,\n            topology.node_x.name,", "            topology.node_x.name,", 'R09.4'),
+    V('C09', 'bounds-lookups-coupled', _G, "        bounds_names: list[Hashable | None] = [\n            self.topology.longitude.attrs.get('bounds', None),\n            self.topology.latitude.attrs.get('bounds', None),\n        ]\n        for bounds_name in bounds_names:\n            if bounds_name is not None and bounds_name in self.dataset.variables:\n                names.append(bounds_name)",
+      "        with suppress(KeyError):\n            bounds_names = [\n                self.topology.longitude.attrs['bounds'],\n                self.topology.latitude.attrs['bounds'],\n            ]\n            names.extend(bounds_name for bounds_name in bounds_names if bounds_name in self.dataset.variables)", 'R09.4'),
+    V('C09', 'column-values-shifted-in-place', _U, "        column_values = column_values + start_index", "        column_values += start_index", 'R09.7'),
     V('C09', 'cf-mask-without-coords', _G, "            coords={\n                topology.latitude_name: topology.latitude.copy(),\n                topology.longitude_name: topology.longitude.copy(),\n            },\n", "", 'R09.5'),
 ]
